@@ -247,10 +247,19 @@ func runStandin(c *Ctx, sh *shared, dir string) {
 	si := &standin{id: "c05standin", units: map[string]*siUnit{}}
 	nb := netceptor.New(ctx, si.id)
 	defer nb.Shutdown()
-	port := freePort()
-	bl, err := backends.NewTCPListener(fmt.Sprintf("127.0.0.1:%d", port), nil, nb.Logger)
-	if err != nil || nb.AddBackend(bl) != nil {
-		fail(fmt.Sprintf("stand-in node does not listen: %v", err), "harness-start")
+	// a free port may have been taken by someone else by the time it is used: try another
+	port, listening := 0, false
+	var lerr error
+	for try := 0; try < 5 && !listening; try++ {
+		port = freePort()
+		bl, err := backends.NewTCPListener(fmt.Sprintf("127.0.0.1:%d", port), nil, nb.Logger)
+		if err == nil {
+			err = nb.AddBackend(bl)
+		}
+		listening, lerr = err == nil, err
+	}
+	if !listening {
+		fail(fmt.Sprintf("stand-in node does not listen: %v", lerr), "harness-start")
 		return
 	}
 	li, err := nb.ListenAndAdvertise("control", nil, nil)
